@@ -98,6 +98,11 @@ func umax(t *Term) uint64 {
 	switch t.op {
 	case "const":
 		return t.val
+	case "bvsub":
+		// a - b with b <= a syntactically certain: (x/c)*c style terms are not handled; only constants
+		if t.args[1].isConst() && t.args[0].op == "bvadd" && t.args[0].args[1].isConst() && t.args[0].args[1].val >= t.args[1].val {
+			return umax(t.args[0])
+		}
 	case "bvudiv":
 		if t.args[1].isConst() && t.args[1].val != 0 {
 			return umax(t.args[0]) / t.args[1].val
@@ -780,4 +785,92 @@ func hasFP(t *Term, seen map[int]bool) bool {
 		}
 	}
 	return false
+}
+
+// ---------------- variable sets (constraint-independence slicing) ----------------
+
+var varsMemo sync.Map // term id -> []int (sorted ids of var terms)
+
+func termVars(t *Term) []int {
+	if t.isConst() {
+		return nil
+	}
+	if v, ok := varsMemo.Load(t.id); ok {
+		return v.([]int)
+	}
+	var out []int
+	if t.op == "var" {
+		out = []int{t.id}
+	} else {
+		for _, a := range t.args {
+			out = mergeSorted(out, termVars(a))
+		}
+	}
+	varsMemo.Store(t.id, out)
+	return out
+}
+
+func mergeSorted(a, b []int) []int {
+	if len(a) == 0 {
+		return b
+	}
+	if len(b) == 0 {
+		return a
+	}
+	out := make([]int, 0, len(a)+len(b))
+	i, j := 0, 0
+	for i < len(a) && j < len(b) {
+		switch {
+		case a[i] < b[j]:
+			out = append(out, a[i])
+			i++
+		case a[i] > b[j]:
+			out = append(out, b[j])
+			j++
+		default:
+			out = append(out, a[i])
+			i++
+			j++
+		}
+	}
+	out = append(out, a[i:]...)
+	return append(out, b[j:]...)
+}
+
+func intersects(a, b []int) bool {
+	i, j := 0, 0
+	for i < len(a) && j < len(b) {
+		switch {
+		case a[i] < b[j]:
+			i++
+		case a[i] > b[j]:
+			j++
+		default:
+			return true
+		}
+	}
+	return false
+}
+
+// sliceFor returns the conjuncts of pc that are (transitively) connected to c through shared variables.
+func sliceFor(pc []*Term, c *Term) []*Term {
+	vars := termVars(c)
+	used := make([]bool, len(pc))
+	var out []*Term
+	for changed := true; changed; {
+		changed = false
+		for i, p := range pc {
+			if used[i] {
+				continue
+			}
+			pv := termVars(p)
+			if len(pv) == 0 || intersects(pv, vars) {
+				used[i] = true
+				out = append(out, p)
+				vars = mergeSorted(vars, pv)
+				changed = true
+			}
+		}
+	}
+	return out
 }
